@@ -103,9 +103,12 @@ type World struct {
 	Opts       Options
 	Stdin      string
 	StdinR     io.Reader // when set, used instead of Stdin (faulty readers)
-	Tools      kern.ToolModel
-	Faults     []kern.Fault
-	Note       string // free-text description of how the world was generated
+	// StdoutFailAt > 0: the output writer (Command.Stdout / the Linter's out) fails like a closed
+	// pipe once StdoutFailAt-1 bytes have been written (not for shared Linters)
+	StdoutFailAt int
+	Tools        kern.ToolModel
+	Faults       []kern.Fault
+	Note         string // free-text description of how the world was generated
 }
 
 // ErrRec is a diagnostic, by value.
@@ -262,6 +265,23 @@ type sharedLinter struct {
 	failOut   int // > 0: Write fails once failOut-1 bytes have been written in this call
 }
 
+// failingWriter accepts room bytes and fails from then on (a closed pipe, a full disk).
+type failingWriter struct {
+	b    *bytes.Buffer
+	room int
+}
+
+func (w *failingWriter) Write(p []byte) (int, error) {
+	if len(p) <= w.room {
+		w.room -= len(p)
+		return w.b.Write(p)
+	}
+	n := w.room
+	w.b.Write(p[:n])
+	w.room = 0
+	return n, errors.New("write |1: broken pipe")
+}
+
 // sharedOut is the output writer of a shared Linter: a buffer that can be made to fail.
 type sharedOut struct{ s *sharedLinter }
 
@@ -298,6 +318,9 @@ func lintOnce(w *World, res *LintResult, shared *sharedLinter) {
 			cmd = shared.cmd
 		}
 		cmd.Stdin, cmd.Stdout, cmd.Stderr = in, &out, &lockedWriter{b: &errb}
+		if w.StdoutFailAt > 0 {
+			cmd.Stdout = &failingWriter{b: &out, room: w.StdoutFailAt - 1}
+		}
 		res.Exit = cmd.Main(append([]string{"actionlint"}, w.Args...))
 	default:
 		opts := &actionlint.LinterOptions{
@@ -340,7 +363,11 @@ func lintOnce(w *World, res *LintResult, shared *sharedLinter) {
 			shared.out.Reset()
 			shared.errb.Reset()
 		} else {
-			l, err = actionlint.NewLinter(&out, opts)
+			var ow io.Writer = &out
+			if w.StdoutFailAt > 0 {
+				ow = &failingWriter{b: &out, room: w.StdoutFailAt - 1}
+			}
+			l, err = actionlint.NewLinter(ow, opts)
 		}
 		res.Linter = l
 		var errs []*actionlint.Error
@@ -389,6 +416,7 @@ type WorldJSON struct {
 	Files      []string          `json:"files,omitempty"`
 	Opts       Options           `json:"opts"`
 	Stdin      string            `json:"stdin,omitempty"`
+	StdoutFail int               `json:"stdout_fails_after_bytes_plus_one,omitempty"`
 	Faults     []kern.Fault      `json:"faults,omitempty"`
 	Dirs       []string          `json:"dirs,omitempty"`
 	Disk       map[string]string `json:"disk"`
@@ -399,7 +427,7 @@ type WorldJSON struct {
 
 // Materialise renders the world for a replay file or an evidence sample.
 func (w *World) Materialise() *WorldJSON {
-	j := &WorldJSON{Cwd: w.Cwd, CPUs: w.CPUs, GoMaxProcs: w.GoMaxProcs, API: w.API, Args: w.Args, Files: w.Files, Opts: w.Opts, Stdin: w.Stdin,
+	j := &WorldJSON{Cwd: w.Cwd, CPUs: w.CPUs, GoMaxProcs: w.GoMaxProcs, API: w.API, Args: w.Args, Files: w.Files, Opts: w.Opts, Stdin: w.Stdin, StdoutFail: w.StdoutFailAt,
 		Faults: w.Faults, Disk: map[string]string{}, Note: w.Note}
 	for p, c := range w.Disk.Files {
 		j.Disk[p] = string(c)
@@ -455,7 +483,7 @@ func (w *World) Hash() uint64 {
 	for _, p := range sortedKeys(w.Disk.Links) {
 		fmt.Fprintf(h, "L%s>%s|", p, w.Disk.Links[p])
 	}
-	fmt.Fprintf(h, "|%s|%d|%d|%s|%q|%q|%+v|%q", w.Cwd, w.CPUs, w.GoMaxProcs, w.API, w.Args, w.Files, w.Opts, w.Stdin)
+	fmt.Fprintf(h, "|%s|%d|%d|%s|%q|%q|%+v|%q|%d", w.Cwd, w.CPUs, w.GoMaxProcs, w.API, w.Args, w.Files, w.Opts, w.Stdin, w.StdoutFailAt)
 	for _, f := range w.Faults {
 		fmt.Fprintf(h, "|%+v", f)
 	}
